@@ -9,9 +9,16 @@
 //  * object-reuse histories (History): which objects of a run are fresh and which have already been used, alternative
 //    data / additive term / normalisation for a first run on the same objective function (AltData), re-configuration
 //    of an objective function through its public setters (configure_objective).
+//  * the harness's OWN prior (OwnPrior): gradient and parabolic-surrogate curvature of the quadratic prior / RDP in double,
+//    written from the class documentation (c09_ref.h, validated in every C09 run against central differences of its own
+//    value), so that the one-step-late clause of C07 and the denominator of C08 do not follow the prior object under test.
+//  * file-based stages (SensFiles): stage 1 computes and WRITES the sensitivities ('sensitivity filename' /
+//    'subset sensitivity filenames'); stage 2 = NEW objects that READ them with 'recompute sensitivity' off, configured
+//    through the setters or through a parsed parameter text; the files themselves are compared with the explicit-P sensitivity.
 #pragma once
 #include "stir_gen.h"
 #include "explicit_p.h"
+#include "c09_ref.h"
 #include "stir/ProjDataInMemory.h"
 #include "stir/ExamInfo.h"
 #include "stir/ViewSegmentNumbers.h"
@@ -447,6 +454,206 @@ make_objective(const Fixture& F, const PriorSpec& ps, bool use_subset_sensitivit
   if (ps.kind != 0)
     obj->set_prior_sptr(make_prior(F, ps));
   return obj;
+}
+
+// ---- the harness's own prior (documentation formulas, double) ----------------------------------------------------
+//! QuadraticPrior.h / RelativeDifferencePrior.h document
+//!   gradient_r  = beta sum_dr w_dr psi'(lambda_r, lambda_{r+dr}) kappa_r kappa_{r+dr}
+//!   (quadratic: psi' = lambda_r - lambda_{r+dr};  RDP: d/dx of (x-y)^2 / (x + y + gamma |x-y| + epsilon))
+//!   curvature_r = beta sum_dr w_dr kappa_r kappa_{r+dr}      (quadratic: "the sum of weighting coefficients")
+//! summed over the neighbours r+dr inside the image; default weights = x-voxel size / Euclidean distance on 3x3x3.
+//! c09::PairRef implements exactly this (the voxel order of c09::Grid::idx and vp::ExplicitP::vox_index is the same:
+//! (z * ny + y) * nx + x, zero based).
+struct OwnPrior
+{
+  bool on = false;
+  c09::PairRef<double> ref;
+  std::vector<double> gradient(const std::vector<double>& lam) const
+  {
+    std::vector<double> g;
+    ref.gradient(lam, g);
+    return g;
+  }
+  std::vector<double> curvature(const std::vector<double>& lam) const
+  {
+    std::vector<double> cv;
+    ref.curvature(lam, cv);
+    return cv;
+  }
+};
+
+inline OwnPrior
+make_own_prior(const Fixture& F, const PriorSpec& s)
+{
+  OwnPrior o;
+  if (s.kind == 0)
+    return o;
+  o.on = true;
+  c09::Grid& g = o.ref.g;
+  g.nz = F.P.nz;
+  g.ny = F.P.ny;
+  g.nx = F.P.nx;
+  g.oz = F.P.imin[1];
+  g.oy = F.P.imin[2];
+  g.ox = F.P.imin[3];
+  const CartesianCoordinate3D<float> vs = F.image->get_voxel_size();
+  g.vz = vs.z();
+  g.vy = vs.y();
+  g.vx = vs.x();
+  o.ref.w = c09::default_weights(g, false); // make_prior constructs with only_2D = false and sets no weights
+  o.ref.beta = double(s.beta);
+  o.ref.pot.kind = s.kind == 1 ? c09::QUAD : c09::RDP;
+  o.ref.pot.gamma = double(s.rdp_gamma);
+  o.ref.pot.eps = double(s.rdp_eps);
+  if (s.kappa)
+    {
+      // the INPUT kappa image of the case (same seed as make_prior), as the float values the prior object sees
+      shared_ptr<target_type> kappa(F.image->get_empty_copy());
+      vg::fill_random(*kappa, s.kseed, 0.5, 2.);
+      o.ref.kap = F.P.image_to_vec(*kappa);
+    }
+  return o;
+}
+
+//! statistic only: largest difference between a quantity of the prior OBJECT and the harness's own, relative to the maximum
+inline void
+prior_object_statistic(const char* key, const std::vector<double>& object_value, const std::vector<double>& own)
+{
+  double mx = 0, d = 0;
+  for (std::size_t v = 0; v < own.size(); ++v)
+    {
+      mx = std::max(mx, std::fabs(own[v]));
+      d = std::max(d, std::fabs(own[v] - object_value[v]));
+    }
+  if (mx > 0)
+    vf::stats().maxi(key, d / mx);
+}
+
+// ---- file-based stages: sensitivities written by one stage and read by NEW objects of a later stage -------------------
+// files = 0: off; 1: stage 2 configured through the setters (set_sensitivity_filename / set_subsensitivity_filenames,
+// set_recompute_sensitivity(false)), image read by the harness and passed to set_up()/reconstruct(target);
+// 2: stage 2 configured through parsed parameter texts ('sensitivity filename' / 'subset sensitivity filenames' /
+// 'recompute sensitivity' / 'use_subset_sensitivities' on the objective function; 'initial estimate', 'start at
+// subiteration number', ... on the reconstruction object) and run through the zero-argument reconstruct(), which reads the
+// initial estimate itself - the route of the command-line executables.
+struct SensFiles
+{
+  std::string total;   // 'sensitivity filename' (use_subset_sensitivities off)
+  std::string pattern; // 'subset sensitivity filenames' (boost::format pattern, use_subset_sensitivities on)
+  explicit SensFiles(const std::string& dir)
+      : total(dir + "/sens.hv"),
+        pattern(dir + "/subsens_%d.hv")
+  {}
+  std::string subset_file(int S) const
+  {
+    std::string r = pattern;
+    const std::size_t p = r.find("%d");
+    return r.substr(0, p) + std::to_string(S) + r.substr(p + 2);
+  }
+};
+
+//! stage 1: the objective function computes its sensitivities (recompute sensitivity on, as make_objective sets it) and,
+//! because a file name is set, writes them (PoissonLogLikelihoodWithLinearModelForMean::set_up, "write to file")
+inline void
+set_sensitivity_files_for_writing(objective_type& obj, const SensFiles& sf, bool use_subset_sensitivities)
+{
+  if (use_subset_sensitivities)
+    obj.set_subsensitivity_filenames(sf.pattern);
+  else
+    obj.set_sensitivity_filename(sf.total);
+  obj.set_recompute_sensitivity(true);
+}
+
+//! stage 2: a FRESH objective function that reads the sensitivities written by stage 1
+inline shared_ptr<objective_type>
+make_objective_reading_sensitivities(const Fixture& F, const PriorSpec& ps, bool use_subset_sensitivities, const SensFiles& sf, int files)
+{
+  shared_ptr<objective_type> obj(new objective_type);
+  if (files == 2)
+    {
+      // parse first (as C05 does for its parsed-only key): ParsingObject::parse does not reset the other members, and the
+      // class's post_processing only acts on file names that are set ('input file' empty, 'additive sinogram' "0")
+      std::stringstream par;
+      par << "PoissonLogLikelihoodWithLinearModelForMeanAndProjData Parameters:=\n"
+          << "use_subset_sensitivities := " << (use_subset_sensitivities ? 1 : 0) << "\n"
+          << "recompute sensitivity := 0\n";
+      if (use_subset_sensitivities)
+        par << "subset sensitivity filenames := " << sf.pattern << "\n";
+      else
+        par << "sensitivity filename := " << sf.total << "\n";
+      par << "End PoissonLogLikelihoodWithLinearModelForMeanAndProjData Parameters:=\n";
+      if (!obj->parse(par))
+        error("harness: parsing the sensitivity keywords of the objective function failed");
+    }
+  shared_ptr<ProjMatrixByBin> m = make_case_matrix(F.mopts, F.sym, F.cache);
+  shared_ptr<ProjectorByBinPair> pair(new ProjectorByBinPairUsingProjMatrixByBin(m));
+  obj->set_proj_data_sptr(F.y_pd);
+  obj->set_projector_pair_sptr(pair);
+  if (files != 2)
+    {
+      obj->set_use_subset_sensitivities(use_subset_sensitivities);
+      if (use_subset_sensitivities)
+        obj->set_subsensitivity_filenames(sf.pattern);
+      else
+        obj->set_sensitivity_filename(sf.total);
+      obj->set_recompute_sensitivity(false);
+    }
+  if (F.use_add)
+    obj->set_additive_proj_data_sptr(F.a_pd);
+  if (F.use_norm)
+    obj->set_normalisation_sptr(shared_ptr<BinNormalisation>(new BinNormalisationFromProjData(F.norm_pd)));
+  if (ps.kind != 0)
+    obj->set_prior_sptr(make_prior(F, ps));
+  return obj;
+}
+
+//! The sensitivity files themselves, read back with read_from_file: 'sensitivity filename' holds the TOTAL sensitivity
+//! P^T n (PoissonLogLikelihoodWithLinearModelForMean.h, get/set_sensitivity_filename: "filename to read (or write) the total
+//! sensitivity"; a reader divides it by the number of subsets itself, set_total_or_subset_sensitivities), file S of 'subset
+//! sensitivity filenames' ("filename pattern to read (or write) the subset sensitivities", formatted with the subset number)
+//! holds P_S^T n.
+//! Tolerance (relative to the maximum of the compared sensitivity image): a float back projection of float efficiencies over
+//! up to ~1e4 bins against double; observed maxima see REPORT / DESIGN (calibration over seeds 1-5 of both quick tiers);
+//! asserted 2e-4, the base tolerance of the EM clause.  A file that holds s/N, another subset's sensitivity (other views: a
+//! different footprint on the grid and other efficiencies) or the sum of several is off by O(1e-2..1).
+inline vf::Result
+check_sensitivity_files(const Fixture& F, const SensFiles& sf, bool use_subset_sensitivities, int N, const std::string& ctx)
+{
+  const int nfiles = use_subset_sensitivities ? N : 1;
+  for (int S = 0; S < nfiles; ++S)
+    {
+      const std::string name = use_subset_sensitivities ? sf.subset_file(S) : sf.total;
+      shared_ptr<target_type> im;
+      try
+        {
+          im = stir::read_from_file<target_type>(name);
+        }
+      catch (const std::exception& e)
+        {
+          return vf::Result::fail(vf::cat("the sensitivity file ", name, " that set_up should have written cannot be read: ", e.what(), " ", ctx));
+        }
+      std::string explanation;
+      VF_CHECK(im->has_same_characteristics(*F.image, explanation), "the sensitivity file has another geometry than the target: ", explanation, " ", ctx);
+      const std::vector<double> got = F.P.image_to_vec(*im);
+      const std::vector<double>& want = use_subset_sensitivities ? F.sens_subset[std::size_t(S)] : F.sens_total;
+      const double scale = vmax_of(want);
+      double worst = 0;
+      std::size_t where = 0;
+      for (std::size_t v = 0; v < want.size(); ++v)
+        if (!(std::fabs(got[v] - want[v]) <= worst))
+          {
+            worst = std::fabs(got[v] - want[v]);
+            where = v;
+          }
+      if (scale > 0)
+        vf::stats().maxi(use_subset_sensitivities ? "max rel err subset sensitivity FILE vs explicit P" : "max rel err total sensitivity FILE vs explicit P", worst / scale);
+      VF_CHECK(worst <= 2e-4 * scale, use_subset_sensitivities ? vf::cat("file ", S, " of 'subset sensitivity filenames' is not the sensitivity of subset ", S, " of ", N)
+                                                                 : vf::cat("the file 'sensitivity filename' is not the total sensitivity (N=", N, ")"),
+               ": |diff|=", worst, " at voxel ", where, " (file ", got[where], ", explicit P ", want[where], "), scale ", scale, " ", ctx);
+    }
+  vf::stats().count(use_subset_sensitivities ? "subset sensitivity files compared with the explicit-P sensitivity" : "total sensitivity files compared with the explicit-P sensitivity",
+                    nfiles);
+  return vf::Result::pass();
 }
 
 // ---- object-reuse histories ----------------------------------------------------------------------------------
